@@ -683,6 +683,28 @@ func (w *sketchWorld) compareSketch(r *realSketch, p *SkObs) *skDiff {
 		}
 	}
 
+	if asp["quantile"] && !p.Empty && len(answers) == len(p.Qs) && len(answers) > 0 {
+		// the batch query is the same query: its answers are judged like the single ones (they must be the same values)
+		qs := make([]float64, len(p.Qs))
+		for i, qp := range p.Qs {
+			qs[i] = float64(qp.A) / float64(cfg.QDen)
+		}
+		var batch []float64
+		var err error
+		if r.exact != nil {
+			batch, err = r.exact.GetValuesAtQuantiles(qs)
+		} else {
+			batch, err = r.plain.GetValuesAtQuantiles(qs)
+		}
+		if err != nil || len(batch) != len(qs) {
+			return &skDiff{"quantile", fmt.Sprintf("GetValuesAtQuantiles(%v) on a non-empty sketch failed (%v) or returned %d answers", qs, err, len(batch)), nil}
+		}
+		for i := range batch {
+			if batch[i] != answers[i] && !(batch[i] == 0 && answers[i] == 0) {
+				return &skDiff{"quantile", fmt.Sprintf("GetValuesAtQuantiles answers %v for q=%v where GetValueAtQuantile answers %v (a value the property allows at that rank)", batch[i], qs[i], answers[i]), batch[i]}
+			}
+		}
+	}
 	if asp["minmax"] && !p.Empty {
 		// C11: the answer lies between the reported minimum and maximum
 		mn, e1 := base.GetMinValue()
